@@ -419,6 +419,22 @@ def decoder_rules(run, r1, r2, f, aug):
     if len(cl) != 1:
         raise common.AnalysisBroken("decode_dispatch_data: per-class decoding loop not found")
     cb = cl[0]["body"]
+    # the encoder emits one v-table per distinct class (compiler.classes), the decoder walks the registration
+    # records (Policy::classes, which may name a class several times): a record whose class already has its
+    # v-table must be skipped before anything is read
+    lv = cl[0]["var"]["did"]
+    first_fetch_line = min([x["l"] for x in astq.walk(cb) if is_fetch(x)] or [10 ** 9])
+    skips = [n for n in (cb.get("c") or []) if n.get("k") == "IfStmt" and n["l"] <= first_fetch_line and any(x.get("k") == "ContinueStmt" for x in astq.walk(n["then"]))
+             and any(x.get("k") == "MemberExpr" and x.get("member") == "static_vptr" for x in astq.walk(n["cond"])) and any(x.get("k") == "DeclRefExpr" and x["ref"]["did"] == lv for x in astq.walk(n["cond"]))]
+    oks = False
+    if len(skips) == 1:
+        c0 = astq.strip(skips[0]["cond"])
+        nonnull = (c0.get("k") == "BinaryOperator" and c0.get("op") == "!=" and any(x.get("k") in ("CXXNullPtrLiteralExpr", "GNUNullExpr") or (x.get("k") == "IntegerLiteral" and x.get("v") == 0) for x in astq.walk(c0))) or \
+                  (c0.get("k") == "UnaryOperator" and c0.get("op") == "*")
+        oks = bool(nonnull) and any(x.get("k") == "UnaryOperator" and x.get("op") == "*" for x in astq.walk(c0))
+    run.instance(r2, "decode_dispatch_data: a registration record whose class already has its v-table is skipped before any value is read", where(cl[0]), ok=oks)
+    if not oks:
+        run.violation(r2, "decode_dispatch_data|record-once", "the per-record loop does not skip records of an already decoded class: the encoder emits one v-table per distinct class, a class registered twice desynchronises the decoder", where(cl[0]))
     loops = [n for n in cb.get("c") or [] if n.get("k") in ("DoStmt", "WhileStmt", "ForStmt")]
     if len(loops) != 1:
         raise common.AnalysisBroken("decode_dispatch_data: per-entry loop not found")
@@ -536,7 +552,7 @@ def decoder_rules(run, r1, r2, f, aug):
 def check(run):
     r1, r2 = "C13-extent", "C13-cells"
     run.rule(r1, "declared extents = decoder reads/writes as affine per-method / per-class / per-entry counts; equivalent branch predicates", floor=10)
-    run.rule(r2, "error-cell order, index bit and stop bit agree between encoder, decoder and augment_methods", floor=7)
+    run.rule(r2, "error-cell order, index bit, stop bit and the one-table-per-class discipline agree between encoder, decoder and augment_methods", floor=8)
     pols = ["release", "debug"] if run.tier == "quick" else ["release", "debug", "p_map", "p_ind", "p_throw"]
     src, _ = witness.call_matrix(pols, ["rr"], witness.update_block(pols))
     variants = [True] if run.tier == "quick" else [True, False]
